@@ -729,7 +729,7 @@ Lemma tsafe_bind_get {B} (f : st → MS B) :
   tsafe (bind get f).
 Proof. intros H s r s' HI Hl. cbn [bind get]. by apply H. Qed.
 
-Lemma bind_fst_state {A B C} (m : MS (A * B)) (h : A * B → C) s r s' :
+Lemma bind_fst_state {A C} (m : MS A) (h : A → C) s r s' :
   (x <- m ;; ret (h x)) s = (r, s') → ∃ r0, m s = (r0, s').
 Proof.
   unfold bind. destruct (m s) as [[x|e] s1]; intros [= <- <-]; eauto.
@@ -1234,11 +1234,12 @@ Proof.
   assert (Hlvl : ∀ x, valid s x → lvl_of s x ≤ lvl_of s' x ∧
                       (absn x ≠ 1%positive → lvl_of s' x = lvl_of s x) ∧
                       lvl_of s' x ≤ S n).
-  { intros x Hx. unfold lvl_of at 2 3 4. rewrite Es.
-    destruct (decide (absn x = 1%positive)) as [E|E].
-    - rewrite E, lookup_insert. cbn. rewrite (lvl_term s HI) by done. fold n. lia.
-    - rewrite lookup_insert_ne by done. fold (lvl_of s x).
-      pose proof (lvl_le s HI x Hx). fold n in H. lia. }
+  { intros x Hx. destruct (decide (absn x = 1%positive)) as [E|E].
+    - assert (lvl_of s' x = S n) as -> by (unfold lvl_of; by rewrite Es, E, lookup_insert).
+      rewrite (lvl_term s HI) by done. fold n. split_and!; [lia|done|lia].
+    - assert (lvl_of s' x = lvl_of s x) as ->
+        by (unfold lvl_of; by rewrite Es, lookup_insert_ne).
+      pose proof (lvl_le s HI x Hx) as Hle. fold n in Hle. split_and!; [lia|done|lia]. }
   assert (HD : ∀ u a, valid s u → D s' u a = D s u a).
   { intros u a Hu. apply D_raise_term; try done. fold n. lia. }
   assert (Hnoterm : ∀ k t, succ s !! k = Some t → k ≠ 1%positive → t_lo t ≠ 0%Z).
@@ -1257,7 +1258,8 @@ Proof.
         -- intros Hp. destruct (decide (t = tterm (S n))) as [->|Hne]; [done|].
            rewrite lookup_insert_ne in Hp by done.
            apply lookup_delete_Some in Hp as [Hne' Hp].
-           apply (inv_pred _ HI) in Hp. rewrite (inv_term _ HI) in Hp. congruence.
+           apply (inv_pred _ HI) in Hp. rewrite (inv_term _ HI) in Hp.
+           injection Hp as Hp. by destruct Hne'.
       * rewrite lookup_insert_ne by done. split.
         -- intros Hk. pose proof (Hnoterm _ _ Hk Hk1) as Hlo.
            rewrite lookup_insert_ne by (intros <-; done).
@@ -1269,7 +1271,7 @@ Proof.
     + rewrite Em. destruct (inv_free _ HI) as [Hf Hb]. split.
       * apply eq_None_not_Some. rewrite Hdom. by rewrite Hf.
       * intros k Hk. apply Hdom. by apply Hb.
-    + rewrite Er, (inv_ref _ HI). apply set_eq. intros k.
+    + rewrite Er, (inv_ref _ HI). apply stdpp.sets.set_eq. intros k.
       rewrite !elem_of_dom. by rewrite Hdom.
     + intros g u v w Hi. rewrite Ei in Hi.
       destruct (inv_ite _ HI _ _ _ _ Hi) as (Hg&Hu&Hv&Hw&Hmin&HDw).
@@ -1277,7 +1279,8 @@ Proof.
       * destruct (Hlvl _ Hg) as (Hg1&Hg2&Hg3), (Hlvl _ Hu) as (Hu1&Hu2&Hu3),
           (Hlvl _ Hv) as (Hv1&Hv2&Hv3), (Hlvl _ Hw) as (Hw1&Hw2&Hw3).
         destruct (decide (absn w = 1%positive)) as [Ew|Ew].
-        { unfold lvl_of at 4. rewrite Es, Ew, lookup_insert. cbn. lia. }
+        { assert (lvl_of s' w = S n) as -> by (unfold lvl_of; by rewrite Es, Ew, lookup_insert).
+          lia. }
         rewrite (Hw2 Ew).
         pose proof (lvl_le s HI _ Hg) as Lg. pose proof (lvl_le s HI _ Hu) as Lu.
         pose proof (lvl_le s HI _ Hv) as Lv. fold n in Lg, Lu, Lv.
@@ -1310,10 +1313,411 @@ Proof.
       rewrite Er, (H1 k Hk). do 2 f_equal. rewrite Es.
       pose proof (indeg_update (succ s) 1%positive _ (tterm (S n)) k (inv_term _ HI)) as Hup.
       unfold edges_to, tterm in Hup. cbn in Hup.
-      rewrite !decide_False in Hup by (intros [? _]; done). lia.
+      rewrite !decide_False in Hup by (intros [? _]; done). unfold tterm. lia.
     + intros k Hk. apply H2. intros Hk'. apply Hk.
       apply elem_of_dom. apply Hdom. by apply elem_of_dom.
   - intros u Hu. split; [by apply Hval|]. split; [intros a; by apply HD|].
     intros ρ. unfold denv. rewrite HD by done. apply (D_indep_lt s HI); [done|].
     intros j Hj. fold n in Hj. rewrite El, lookup_insert_ne by lia. done.
+Qed.
+
+(** [add_var] with any name and any level.  The guard excludes the one
+    accepted call that breaks the invariant: a NEW name at an explicit level
+    beyond the next free one (see [add_var_gap_refuted] in [Vars]). *)
+Theorem add_var_total s var level r s' :
+  Inv s → add_var var level s = (r, s') →
+  (∀ l, level = Some l → vars s !! var = None → l ≤ nvars s) →
+  Inv s' ∧ frame s s' ∧ (∀ L, Counts s L → Counts s' L) ∧
+  (∀ u, valid s u → valid s' u ∧ (∀ a, D s' u a = D s u a) ∧
+                    ∀ ρ, denv s' u ρ = denv s u ρ) ∧
+  match r with
+  | Ok l => (vars s !! var = Some l ∧ s' = s) ∨
+            (vars s !! var = None ∧ l = nvars s ∧ nvars s' = S (nvars s) ∧
+             vars s' = <[var := l]> (vars s) ∧ lvl2var s' = <[l := var]> (lvl2var s) ∧
+             succ s' = <[1%positive := tterm (S (nvars s))]> (succ s))
+  | Err e => e = EValue ∧ s' = s
+  end.
+Proof.
+  intros HI H Hg.
+  assert (Hsame : ∀ r0 : res nat, match r0 with
+            | Ok l => vars s !! var = Some l | Err e => e = EValue end →
+    Inv s ∧ frame s s ∧ (∀ L, Counts s L → Counts s L) ∧
+    (∀ u, valid s u → valid s u ∧ (∀ a, D s u a = D s u a) ∧
+                      ∀ ρ, denv s u ρ = denv s u ρ) ∧
+    match r0 with
+    | Ok l => (vars s !! var = Some l ∧ s = s) ∨
+              (vars s !! var = None ∧ l = nvars s ∧ nvars s = S (nvars s) ∧
+               vars s = <[var := l]> (vars s) ∧ lvl2var s = <[l := var]> (lvl2var s) ∧
+               succ s = <[1%positive := tterm (S (nvars s))]> (succ s))
+    | Err e => e = EValue ∧ s = s
+    end).
+  { intros r0 Hr0. split; [done|split; [reflexivity|split; [done|split; [done|]]]].
+    destruct r0; [by left|done]. }
+  unfold add_var in H. cbn [bind get] in H.
+  destruct (decide (is_Some (vars s !! var))) as [[vl Hvl]|Hnew].
+  { unfold check_var in H. cbn [bind get] in H. rewrite Hvl in H.
+    destruct level as [l|]; [case_decide|]; injection H as <- <-;
+      [by apply (Hsame (Ok vl))|by apply (Hsame (Err EValue))|by apply (Hsame (Ok vl))]. }
+  apply eq_None_not_Some in Hnew.
+  unfold next_free_level in H. rewrite bind_assoc in H. cbn [bind get] in H.
+  set (l := match level with Some l => l | None => nvars s end) in *.
+  destruct (lvl2var s !! l) as [x|] eqn:El2.
+  { cbn [bind raise] in H. injection H as <- <-. by apply (Hsame (Err EValue)). }
+  assert (Hl : l = nvars s).
+  { assert (l ≤ nvars s) by (subst l; destruct level; [by apply Hg|done]).
+    destruct (decide (l < nvars s)) as [Hlt|]; [|lia].
+    apply (inv_lvls _ HI) in Hlt as [? ?]. congruence. }
+  clear Hsame Hg. clearbody l. subst l.
+  cbn [bind ret modify get init_terminal] in H. injection H as <- <-.
+  match goal with |- context [Inv ?st] => set (s' := st) end.
+  assert (Hn2 : size (<[var := nvars s]> (vars s)) = S (nvars s))
+    by (by rewrite map_size_insert_None).
+  destruct (Inv_add_var_fields s s' var HI Hnew) as (HI'&Hn'&HC&Hden).
+  - subst s'. cbn. by rewrite Hn2.
+  - subst s'. cbn. rewrite Hn2, (inv_term _ HI). done.
+  - subst s'. cbn. assert (is_Some (refc s !! 1%positive)) as [c ->]; [|done].
+    apply elem_of_dom. rewrite (inv_ref _ HI). apply elem_of_dom.
+    rewrite (inv_term _ HI). by eexists.
+  - done.
+  - done.
+  - done.
+  - done.
+  - split; [done|split; [by repeat split|split; [done|split; [done|]]]].
+    right. split_and!; try done.
+    subst s'. cbn. by rewrite Hn2.
+Qed.
+
+Lemma nrf_add_var var level : nrf (add_var var level).
+Proof.
+  unfold add_var, check_var, next_free_level, init_terminal. nrf.
+Qed.
+
+(** [declare]: new names at the bottom, one after the other; never fails *)
+Theorem declare_total s vs r s' :
+  Inv s → declare vs s = (r, s') →
+  r = Ok tt ∧ Inv s' ∧ frame s s' ∧ (∀ L, Counts s L → Counts s' L) ∧
+  ∀ u, valid s u → valid s' u ∧ (∀ a, D s' u a = D s u a) ∧
+                   ∀ ρ, denv s' u ρ = denv s u ρ.
+Proof.
+  unfold declare. revert s. induction vs as [|v vs IH]; intros s HI; cbn [forM].
+  { intros [= <- <-]. split; [done|split; [done|split; [reflexivity|done]]]. }
+  unfold bind at 1. unfold bind at 1.
+  destruct (add_var v None s) as [ra s1] eqn:Ea.
+  destruct (add_var_total s v None ra s1 HI Ea ltac:(done)) as (HI1&Hf1&HC1&Hd1&Hr).
+  destruct ra as [l|e]; cycle 1.
+  { exfalso. destruct Hr as [_ ->]. revert Ea. unfold add_var. cbn [bind get].
+    case_decide as Hex.
+    - destruct Hex as [vl Hvl]. unfold check_var. cbn [bind get]. by rewrite Hvl.
+    - unfold next_free_level. rewrite bind_assoc. cbn [bind get].
+      destruct (lvl2var s !! nvars s) eqn:E;
+        [|cbn [bind get ret modify init_terminal]; done].
+      assert (nvars s < nvars s); [|lia]. apply (inv_lvls _ HI). by eexists. }
+  cbn [ret]. intros H. destruct (IH s1 HI1 H) as (->&HI'&Hf'&HC'&Hd').
+  split; [done|split; [done|split; [by etrans|split]]].
+  - intros L HL. by apply HC', HC1.
+  - intros u Hu. destruct (Hd1 u Hu) as (Hu1&HD1&Hρ1). destruct (Hd' u Hu1) as (Hu2&HD2&Hρ2).
+    split; [done|split].
+    + intros a. by rewrite HD2.
+    + intros ρ. by rewrite Hρ2.
+Qed.
+
+(** ** 12. Construction: [BDD()] and [BDD(levels)] *)
+Lemma init_fields :
+  succ init = {[1%positive := tterm 0]} ∧ pred init = {[tterm 0 := 1%positive]} ∧
+  refc init = {[1%positive := 1]} ∧ min_free init = 2%positive ∧ ite_tab init = ∅ ∧
+  vars init = ∅ ∧ lvl2var init = ∅ ∧ last_len init = None ∧ rctx init = false.
+Proof.
+  unfold init, init_terminal. cbn. rewrite delete_empty, lookup_empty. by split_and!.
+Qed.
+
+(** a manager that only holds the terminal (no invariant on the levels yet:
+    [BDD(levels)] declares the levels in the dict's order) *)
+Definition fresh (s : st) : Prop :=
+  succ s = {[1%positive := tterm (nvars s)]} ∧
+  pred s = {[tterm (nvars s) := 1%positive]} ∧
+  refc s = {[1%positive := 1]} ∧ min_free s = 2%positive ∧ ite_tab s = ∅ ∧
+  (∀ v l, vars s !! v = Some l ↔ lvl2var s !! l = Some v) ∧
+  size (lvl2var s) = nvars s.
+
+Lemma fresh_init : fresh init.
+Proof.
+  destruct init_fields as (?&?&?&?&?&Ev&El&_). unfold fresh.
+  change (nvars init) with 0. rewrite Ev, El.
+  split_and!; try done.
+Qed.
+
+Lemma fresh_Inv s : fresh s → (∀ l, l < nvars s ↔ is_Some (lvl2var s !! l)) → Inv s.
+Proof.
+  intros (Es&Ep&Er&Em&Ei&Hb&_) Hl. split.
+  - by rewrite Es, lookup_singleton.
+  - intros n t Hn Hn1. rewrite Es in Hn. apply lookup_singleton_Some in Hn as [<- _]. done.
+  - intros n t. rewrite Es, Ep, !lookup_singleton_Some. naive_solver.
+  - rewrite Em, Es. split; [done|]. intros k Hk.
+    assert (k = 1%positive) as -> by lia. rewrite lookup_singleton. by eexists.
+  - by rewrite Er, Es, !dom_singleton_L.
+  - intros g u v w Hi. by rewrite Ei, lookup_empty in Hi.
+  - done.
+  - done.
+Qed.
+
+Lemma Inv_init : Inv init.
+Proof.
+  apply fresh_Inv; [apply fresh_init|]. intros l. change (nvars init) with 0.
+  change (lvl2var init) with (∅ : gmap nat nat). rewrite lookup_empty.
+  split; [lia|by intros [? ?]].
+Qed.
+
+Lemma Counts_init : Counts init (fun n => if decide (n = 1%positive) then 1 else 0).
+Proof.
+  destruct init_fields as (Es&_&Er&_). split.
+  - intros n Hn. rewrite Es, dom_singleton_L in Hn. apply elem_of_singleton in Hn as ->.
+    rewrite Er, Es, lookup_singleton. f_equal.
+  - intros n Hn. rewrite Es, dom_singleton_L in Hn. rewrite decide_False; [done|].
+    intros ->. apply Hn. by apply elem_of_singleton.
+Qed.
+
+(** one [add_var(v, l)] of a new name at a free level, in a fresh manager *)
+Lemma fresh_add_var s v l :
+  fresh s → vars s !! v = None → lvl2var s !! l = None →
+  ∃ s', add_var v (Some l) s = (Ok l, s') ∧ fresh s' ∧ frame s s' ∧
+        vars s' = <[v := l]> (vars s) ∧ lvl2var s' = <[l := v]> (lvl2var s).
+Proof.
+  intros (Es&Ep&Er&Em&Ei&Hb&Hsz) Hv Hl.
+  unfold add_var. cbn [bind get]. rewrite decide_False by (rewrite Hv; by intros [? ?]).
+  unfold next_free_level. rewrite bind_assoc. cbn [bind get]. rewrite Hl.
+  cbn [bind ret modify get init_terminal]. eexists. split; [reflexivity|].
+  assert (Hn2 : size (<[v := l]> (vars s)) = S (nvars s))
+    by (by rewrite map_size_insert_None).
+  split; [|split; [by repeat split|done]].
+  unfold fresh, nvars. cbn. rewrite Hn2, Es, Ep, Er. fold (nvars s).
+  split; [apply insert_singleton|]. split.
+  { rewrite lookup_singleton. cbn [default]. by rewrite delete_singleton, insert_empty. }
+  split; [by rewrite lookup_singleton|].
+  split; [done|split; [done|split]].
+  - intros v' l'.
+    destruct (decide (v' = v)) as [->|Hv']; destruct (decide (l' = l)) as [->|Hl'].
+    + by rewrite !lookup_insert.
+    + rewrite lookup_insert, lookup_insert_ne by done. split; [congruence|].
+      intros Hx. apply Hb in Hx. congruence.
+    + rewrite lookup_insert_ne, lookup_insert by done. split; [|congruence].
+      intros Hx. apply Hb in Hx. congruence.
+    + rewrite !lookup_insert_ne by done. apply Hb.
+  - rewrite map_size_insert_None by done. by rewrite Hsz.
+Qed.
+
+(** [BDD(levels)] with distinct names and distinct levels (a Python dict
+    has distinct keys): the assertion on the ordering fails and the manager is
+    the empty one, or every variable is declared at its level *)
+Lemma init_levels_forM (levels : list (nat * nat)) : ∀ s,
+  fresh s → NoDup (levels.*1) → NoDup (levels.*2) →
+  (∀ v, v ∈ levels.*1 → vars s !! v = None) →
+  (∀ l, l ∈ levels.*2 → lvl2var s !! l = None) →
+  ∃ s', forM levels (fun '(v, l) => add_var v (Some l) ;;; ret tt) s = (Ok tt, s') ∧
+        fresh s' ∧ frame s s' ∧
+        vars s' = list_to_map levels ∪ vars s ∧
+        dom (lvl2var s') = list_to_set (levels.*2) ∪ dom (lvl2var s).
+Proof.
+  induction levels as [|[v l] levels IH]; intros s Hf Hn1 Hn2 Hv Hl.
+  { exists s. cbn. split; [done|split; [done|split; [reflexivity|]]].
+    split; [by rewrite (left_id_L ∅ (∪))|set_solver]. }
+  cbn [fmap list_fmap fst snd] in Hn1, Hn2, Hv, Hl.
+  apply NoDup_cons in Hn1 as [Hv1 Hn1]. apply NoDup_cons in Hn2 as [Hl1 Hn2].
+  destruct (fresh_add_var s v l Hf) as (s1&Ea&Hf1&Hfr1&Ev1&El1);
+    [apply Hv; by left|apply Hl; by left|].
+  destruct (IH s1 Hf1 Hn1 Hn2) as (s'&Er&Hf'&Hfr'&Ev'&El').
+  { intros v' Hv'. rewrite Ev1, lookup_insert_ne; [apply Hv; by right|]. by intros ->. }
+  { intros l' Hl'. rewrite El1, lookup_insert_ne; [apply Hl; by right|]. by intros ->. }
+  exists s'. cbn [forM]. rewrite bind_assoc, (bind_ok _ _ _ _ _ Ea). cbn [bind ret].
+  split; [done|split; [done|split; [by etrans|split]]].
+  - rewrite Ev', Ev1. cbn [list_to_map foldr]. cbn.
+    rewrite <- insert_union_r; [by rewrite insert_union_l|].
+    apply not_elem_of_list_to_map_1. done.
+  - rewrite El', El1, dom_insert_L. cbn [fmap list_fmap snd list_to_set foldr]. cbn. set_solver.
+Qed.
+
+Theorem init_levels_total (levels : list (nat * nat)) r s' :
+  NoDup (levels.*1) → NoDup (levels.*2) →
+  init_levels levels init = (r, s') →
+  (valid_ordering levels = false ∧ r = Err EAssert ∧ s' = init) ∨
+  (valid_ordering levels = true ∧ r = Ok tt ∧ Inv s' ∧ last_len s' = None ∧
+   rctx s' = false ∧ vars s' = list_to_map levels ∧
+   Counts s' (fun n => if decide (n = 1%positive) then 1 else 0)).
+Proof.
+  intros Hn1 Hn2. unfold init_levels.
+  destruct (valid_ordering levels) eqn:Hvo; cbn [assert bind ret raise]; cycle 1.
+  { intros [= <- <-]. by left. }
+  intros H. right.
+  destruct (init_levels_forM levels init fresh_init Hn1 Hn2) as (s1&Er&Hf&Hfr&Ev&El).
+  { intros v _. apply lookup_empty. }
+  { intros l _. apply lookup_empty. }
+  rewrite Er in H. injection H as <- <-.
+  change (vars init) with (∅ : gmap nat nat) in Ev. rewrite (right_id_L ∅ (∪)) in Ev.
+  change (lvl2var init) with (∅ : gmap nat nat) in El.
+  rewrite dom_empty_L, (right_id_L ∅ (∪)) in El.
+  apply bool_decide_eq_true in Hvo. rewrite Hvo in El.
+  assert (Hnv : nvars s1 = length levels).
+  { destruct Hf as (_&_&_&_&_&_&Hsz). rewrite <- Hsz, <- size_dom, El.
+    rewrite size_list_to_set by apply NoDup_seq. by rewrite seq_length. }
+  assert (HI : Inv s1).
+  { apply fresh_Inv; [done|]. intros l. rewrite Hnv, <- elem_of_dom, El.
+    rewrite elem_of_list_to_set, elem_of_seq. lia. }
+  destruct Hfr as (E1&E2&_).
+  split; [done|split; [done|split; [done|split; [by rewrite E1|split; [by rewrite E2|]]]]].
+  split; [done|].
+  destruct Hf as (Es&_&Er'&_). split.
+  - intros n Hn. rewrite Es, dom_singleton_L in Hn. apply elem_of_singleton in Hn as ->.
+    rewrite Er', Es, lookup_singleton. f_equal.
+  - intros n Hn. rewrite Es, dom_singleton_L in Hn. rewrite decide_False; [done|].
+    intros ->. apply Hn. by apply elem_of_singleton.
+Qed.
+
+(** ** 13. Histories over the operation alphabet of [Driver] *)
+
+(** the state predicate that every allowed history maintains *)
+Definition Good (s : st) : Prop :=
+  Inv s ∧ last_len s = None ∧ ∃ L, Counts s L.
+
+(** the sub-alphabet: everything except [find_or_add] (see
+    [find_or_add_total]), the reordering entry points, the harness setters,
+    [copy_bdd] and [image]/[preimage] *)
+Definition allowed (o : op) : bool :=
+  match o with
+  | ONew levels => bool_decide (NoDup (levels.*1) ∧ NoDup (levels.*2))
+  | OAddVar _ _ | ODeclare _ | OVar _ | OIte _ _ _ | OApply _ _ _ _
+  | OIncref _ | ODecref _ | ORef _ | OGc _
+  | OCofactor _ _ _ | OQuantify _ _ _ _ | OCompose _ _ | ORename _ _
+  | OLet _ _ | OCube _ | OSupport _ | OIsEssential _ _ => true
+  | OConfigure b => bool_decide (b ≠ Some true)
+  | _ => false
+  end.
+
+(** the two caller obligations that the code does not check:
+    - a new variable is not added at a level beyond the next free one;
+    - [decref] is only applied to a node on which the caller holds a
+      reference (the counter exceeds the in-degree). *)
+Definition caller_ok (s : st) (o : op) : Prop :=
+  match o with
+  | OAddVar v (Some l) => vars s !! v = None → l ≤ nvars s
+  | ODecref u => valid s u → indeg (succ s) (absn u) < default 0 (refc s !! absn u)
+  | _ => True
+  end.
+
+Lemma Good_safe s s' : Good s → safe s s' → Good s'.
+Proof.
+  intros (HI&Hl&L&HL) (HI'&_&(E&_)&HC). split; [done|split; [congruence|]].
+  exists L. by apply HC.
+Qed.
+Lemma Good_tape s t : Good s → Good (s <| tape := t |>).
+Proof.
+  intros (HI&Hl&L&HL). split; [|split; [done|]].
+  - apply (Inv_same s); [by repeat split|done].
+  - exists L. by apply (Counts_same s).
+Qed.
+Lemma Good_tsafe {A} (m : MS A) s r s' : tsafe m → Good s → m s = (r, s') → Good s'.
+Proof.
+  intros Ht HG H. apply (Good_safe s); [done|]. destruct HG as (HI&Hl&_).
+  by apply (Ht s r s').
+Qed.
+
+Theorem run_op_good w o s r s' :
+  allowed o = true → (∀ levels, o ≠ ONew levels → Good s ∧ caller_ok s o) →
+  run_op w o s = (r, s') → Good s'.
+Proof.
+  intros Ha Hpre H.
+  destruct o; try discriminate Ha; cbn [run_op] in H;
+    try (destruct (Hpre [] ltac:(done)) as [HG Hgd]; pose proof HG as (HI&Hl&L&HL));
+    try (apply bind_fst_state in H as [r0 H]).
+  - (* ONew *)
+    cbn [allowed] in Ha. apply bool_decide_eq_true in Ha as [Hn1 Hn2].
+    cbn [bind modify] in H.
+    destruct (init_levels_total levels r0 s' Hn1 Hn2 H)
+      as [(_&_&->)|(_&_&HI'&Hl'&_&_&HC')].
+    + split; [apply Inv_init|split; [done|]]. eexists. apply Counts_init.
+    + split; [done|split; [done|]]. by eexists.
+  - (* OAddVar *)
+    destruct (add_var_total s v l r0 s' HI H) as (HI'&(E&_)&HC&_).
+    { intros l0 -> Hv. by apply Hgd. }
+    split; [done|split; [congruence|]]. exists L. by apply HC.
+  - (* ODeclare *)
+    destruct (declare_total s vs r0 s' HI H) as (_&HI'&(E&_)&HC&_).
+    split; [done|split; [congruence|]]. exists L. by apply HC.
+  - by apply (Good_tsafe _ s r0 s' (tsafe_var v)).
+  - by apply (Good_tsafe _ s r0 s' (tsafe_ite g u v)).
+  - by apply (Good_tsafe _ s r0 s' (tsafe_apply o u v w0)).
+  - (* OIncref *)
+    destruct (incref_total s u r0 s' HI H) as (HI'&_&(E&_)&Hv&Hn).
+    destruct (decide (valid s u)) as [Hu|Hu].
+    + destruct (Hv Hu) as [_ HC]. split; [done|split; [congruence|]].
+      eexists. by apply HC.
+    + destruct (Hn Hu) as [_ ->]. done.
+  - (* ODecref *)
+    destruct (decref_total s u r0 s' HI H) as (HI'&_&(E&_)&Hv&Hn).
+    destruct (decide (valid s u)) as [Hu|Hu].
+    + destruct (Hv Hu) as [_ HC]. split; [done|split; [congruence|]].
+      eexists. apply HC; [done|]. cbn [caller_ok] in Hgd. specialize (Hgd Hu).
+      destruct HL as [H1 _]. rewrite (H1 (absn u)) in Hgd by apply elem_of_dom, Hu.
+      cbn in Hgd. lia.
+    + destruct (Hn Hu) as [_ ->]. done.
+  - (* ORef *)
+    destruct (ref_total s u r0 s' HI H) as [-> _]. done.
+  - (* OGc *)
+    destruct (collect_garbage_total roots s L r0 s' HI HL H) as (HI'&HC'&_&_&(E&_)&_).
+    split; [done|split; [congruence|]]. by exists L.
+  - (* OConfigure *)
+    cbn [allowed] in Ha. apply bool_decide_eq_true in Ha.
+    destruct (configure_total s b r0 s' HI H) as (HI'&_&HC&_&E).
+    split; [done|split]; [|exists L; by apply HC].
+    rewrite E. by destruct b as [[|]|].
+  - by apply (Good_tsafe _ s r0 s' (tsafe_cofactor u byname values)).
+  - by apply (Good_tsafe _ s r0 s' (tsafe_quantify u byname qvars fa)).
+  - by apply (Good_tsafe _ s r0 s' (tsafe_compose u sub)).
+  - by apply (Good_tsafe _ s r0 s' (tsafe_rename u d)).
+  - by apply (Good_tsafe _ s r0 s' (tsafe_let d u)).
+  - by apply (Good_tsafe _ s r0 s' (tsafe_cube d)).
+  - by rewrite (pure_support _ _ _ _ H).
+  - by rewrite (pure_is_essential _ _ _ _ _ H).
+Qed.
+
+(** one call on manager [m] of a world *)
+Theorem step_good w m o :
+  allowed o = true →
+  (∀ levels, o ≠ ONew levels → Good (world_get w m) ∧ caller_ok (world_get w m) o) →
+  Good (world_get (fst (step w m o)) m).
+Proof.
+  intros Ha Hpre. unfold step, world_get in *.
+  set (s := default empty_st (w !! m)) in *.
+  assert (Hrun : ∀ r s', run_op w o s = (r, s') → Good (s' <| tape := [] |>)).
+  { intros r s' H. apply Good_tape. by apply (run_op_good w o s r s'). }
+  destruct o; try discriminate Ha;
+    (destruct (run_op w _ s) as [r s'] eqn:E; cbn [fst]; unfold world;
+     rewrite lookup_insert; cbn [default];
+     by apply (Hrun r s')).
+Qed.
+
+(** histories: every call allowed and guarded in the state it meets *)
+Fixpoint hist_ok (w : world) (m : nat) (ops : list op) : Prop :=
+  match ops with
+  | [] => True
+  | o :: ops =>
+      allowed o = true ∧ caller_ok (world_get w m) o ∧ hist_ok (fst (step w m o)) m ops
+  end.
+Definition run (w : world) (m : nat) (ops : list op) : world :=
+  fold_left (fun w o => fst (step w m o)) ops w.
+
+Theorem run_inv_partial ops : ∀ w m,
+  Good (world_get w m) → hist_ok w m ops → Good (world_get (run w m ops) m).
+Proof.
+  induction ops as [|o ops IH]; intros w m HG Hh; [done|].
+  destruct Hh as (Ha&Hgd&Hh). cbn [run fold_left]. apply IH; [|done].
+  apply step_good; [done|]. intros _ _. by split.
+Qed.
+
+(** from the empty world: the first call constructs the manager *)
+Theorem run_inv_from_new levels ops m :
+  allowed (ONew levels) = true →
+  hist_ok (fst (step world_empty m (ONew levels))) m ops →
+  Good (world_get (run world_empty m (ONew levels :: ops)) m).
+Proof.
+  intros Ha Hh. cbn [run fold_left]. apply run_inv_partial; [|done].
+  apply step_good; [done|]. by intros l Hl.
 Qed.
